@@ -27,7 +27,7 @@ DETECT = {'heuristic': 0, 'thorough': 10, 'exhaustive': 20, 'strip': 30}
 def cases(tier, seed):
     rng = random.Random('C03/%s' % seed)
     out = []
-    n = 40 if tier == 'quick' else 400
+    n = 100 if tier == 'quick' else 600
     settings3 = [(4, (4, 4, -1)), (2, (64, 64, 4)), (8, (8, 8, -1)), (1, (4, 4, -1)), (16, (4, 4, -1)), (0.5, (4, 4, -1)), (4, (4, 16, -1)),
                  (2, (4, 4, -1)), (32, (16, 16, 4)), (0.25, (4, 4, -1))]
     for i in range(n):
@@ -55,7 +55,7 @@ def cases(tier, seed):
                     'reduce_iops': rng.random() < 0.3, 'cost': 2})
     for rel, cn in [('vds/small.vds', 'VdsConverter'), ('zgy/small-32bit.zgy', 'ZgyConverter'), ('zgy/small-float-samplerate.zgy', 'ZgyConverter')]:
         out.append({'id': 'writer:fx:' + rel, 'kind': 'fixture-writer', 'fixture': rel, 'converter': cn, 'rate': 4, 'cost': 2})
-    nchain = 24 if tier == 'quick' else 240
+    nchain = 60 if tier == 'quick' else 360
     for i in range(nchain):
         stages = [rng.choice(['crop', 'reblock', 'export']) for _ in range(rng.choice([1, 2, 2]))]
         nI, nX = rng.choice([(8, 16), (12, 12), (9, 7), (70, 66), (16, 32), (5, 5)])
